@@ -24,11 +24,21 @@ def add(flavour, attrs, exp, sig="k", variant="", ret="Fake", cache_if=False, in
     if cache_if:
         al.append(f"cache_if = ci_{i}")
         rt = "Fake" if ret == "Fake" else "Result<Fake, String>"
-        code.append(f"fn ci_{i}(_k: &String, _v: &{rt}) -> bool {{ true }}")
+        if cache_if == "even":
+            # a predicate that takes effect: only results for even keys are cached
+            val = "v.k % 2 == 0" if ret == "Fake" else "v.as_ref().map_or(false, |f| f.k % 2 == 0)"
+            code.append(f"fn ci_{i}(_k: &String, v: &{rt}) -> bool {{ {val} }}")
+        else:
+            code.append(f"fn ci_{i}(_k: &String, _v: &{rt}) -> bool {{ true }}")
     if inval_on:
         al.append(f"invalidate_on = io_{i}")
         rt = "Fake" if ret == "Fake" else "Result<Fake, String>"
-        code.append(f"fn io_{i}(_k: &String, _v: &{rt}) -> bool {{ false }}")
+        if inval_on == "odd":
+            # a check that takes effect: cached results for odd keys are always stale
+            val = "v.k % 2 == 1" if ret == "Fake" else "v.as_ref().map_or(false, |f| f.k % 2 == 1)"
+            code.append(f"fn io_{i}(_k: &String, v: &{rt}) -> bool {{ {val} }}")
+        else:
+            code.append(f"fn io_{i}(_k: &String, _v: &{rt}) -> bool {{ false }}")
     mac = "cache_async" if flavour == "async" else "cache"
     asy = "async " if flavour == "async" else ""
     mem = exp.get("mem")
@@ -68,6 +78,7 @@ def add(flavour, attrs, exp, sig="k", variant="", ret="Fake", cache_if=False, in
         f'    AttrFn {{ id: {i}, fn_name: "{fn}", reg_name: "{exp.get("name") or fn}", flavour: Flavour::{flavour.capitalize()}, attrs: {attrs_lit}, '
         f'policy: Pol::{pol.capitalize()}, limit: {opt(exp.get("limit"))}, ttl: {opt(exp.get("ttl"))}, mem: {opt(mem)}, fw: {opt(exp.get("fw"), lambda v: repr(float(v)))}, '
         f'tags: {sl(tags)}, events: {sl(exp.get("events", []))}, deps: {sl(exp.get("deps", []))}, is_result: {str(ret != "Fake").lower()}, zero_arg: {str(sig == "0").lower()}, deep: {str(bool(exp.get("fw"))).lower()}, '
+        f'accept_even_only: {str(cache_if == "even").lower()}, stale_when_odd: {str(inval_on == "odd").lower()}, '
         f'call: |k| {callx}, key: |k| {key} }},')
 
 for fl in ("global", "thread", "async"):
@@ -92,6 +103,12 @@ for fl in ("global", "thread", "async"):
     add(fl, [f'dependencies = ["dp{fid[0]}"]', "limit = 2"], dict(deps=[f"dp{fid[0]}"], limit=2))
     add(fl, ["limit = 2"], dict(limit=2), cache_if=True)
     add(fl, ["limit = 2"], dict(limit=2), inval_on=True)
+    # predicates whose verdict depends on the result: they must take effect as written, for plain and Result returns
+    for ret in ("Fake", "Result"):
+        add(fl, ["limit = 2"], dict(limit=2), cache_if="even", ret=ret)
+        add(fl, ["limit = 2"], dict(limit=2), inval_on="odd", ret=ret)
+        add(fl, ["limit = 3"], dict(limit=3), cache_if="even", inval_on="odd", ret=ret)
+        add(fl, ['max_memory = "1KB"'], dict(mem=1024), cache_if="even", ret=ret)
     # ---- pairs with the unit strings
     for p in POLS:
         for m in ('"1KB"', '"1MB"'):
